@@ -183,14 +183,16 @@ func errClass(err error) string {
 // ---------------------------------------------------------------- history syntax
 
 type step struct {
-	kind  byte
-	path  []int
-	caps  map[string]int // path string -> cap
-	capsL []string       // in order
-	slot  int
-	gated bool
-	n     int
-	text  string
+	prom   int // promise index (after '@')
+	parent int // Join: the promise joined onto
+	kind   byte
+	path   []int
+	caps   map[string]int // path string -> cap
+	capsL  []string       // in order
+	slot   int
+	gated  bool
+	n      int
+	text   string
 }
 
 func parsePath(s string) []int {
@@ -229,7 +231,13 @@ func parseStep(s string) step {
 		}
 		return v
 	}
+	if i := strings.IndexByte(f[0], '@'); i >= 0 {
+		st.prom = atoi(f[0][i+1:])
+		f[0] = f[0][:i]
+	}
 	switch f[0] {
+	case "J":
+		st.parent = atoi(f[1])
 	case "F":
 		st.caps = map[string]int{}
 		if f[1] != "-" {
@@ -343,12 +351,27 @@ func runHistory(t *testing.T, line string) string {
 	h := &hist{}
 	current.Store(h)
 	f := strings.Fields(line)
-	if len(f) == 0 || f[0] != "seq" {
+	if len(f) == 0 || (f[0] != "seq" && f[0] != "join" && f[0] != "par") {
 		return "bad-case"
 	}
+	np := 1
+	if f[0] == "join" || f[0] == "par" {
+		np, _ = strconv.Atoi(f[1])
+		f = f[1:]
+	}
 	steps := make([]step, 0, len(f)-1)
+	g0, g1 := -1, -1
 	for _, s := range f[1:] {
-		steps = append(steps, parseStep(s))
+		switch {
+		case s == "{":
+			g0 = len(steps)
+		case s == "}":
+			g1 = len(steps)
+		case strings.HasPrefix(s, "!"):
+			// the observation recorded by an earlier run (replay files): ignored
+		default:
+			steps = append(steps, parseStep(s))
+		}
 	}
 	done := make(chan struct{})
 	go func() {
@@ -358,15 +381,18 @@ func runHistory(t *testing.T, line string) string {
 				h.add(" LEAK")
 			}
 		}()
-		synctest.Test(t, func(t *testing.T) { runSeq(h, steps) })
+		synctest.Test(t, func(t *testing.T) { runSeq(h, steps, np, g0, g1) })
 	}()
 	<-done
 	return h.get()
 }
 
-func runSeq(h *hist, steps []step) {
+func runSeq(h *hist, steps []step, np int, g0, g1 int) {
 	w := &world{delivered: map[int][]string{}, gates: map[int]chan struct{}{}, gated: map[int]bool{}, paths: map[int]string{}}
-	p := capnp.NewPromise(capnp.Method{InterfaceID: 0xc11, MethodID: 9999}, pcaller{w})
+	ps := make([]*capnp.Promise, np)
+	for k := range ps {
+		ps[k] = capnp.NewPromise(capnp.Method{InterfaceID: 0xc11, MethodID: uint16(9000 + k)}, pcaller{w})
+	}
 	ctx, cancel := context.WithCancel(context.Background())
 	capClients := map[int]*capnp.Client{}
 	var slotMu sync.Mutex
@@ -379,7 +405,7 @@ func runSeq(h *hist, steps []step) {
 		c    *capnp.Client
 	}
 	var handles []pendingHandle // Client() results of the current phase, named after quiescence
-	future := func(path []int) *capnp.Future {
+	future := func(p *capnp.Promise, path []int) *capnp.Future {
 		f := p.Answer().Future()
 		for _, x := range path {
 			f = f.Field(uint16(x), nil)
@@ -410,11 +436,17 @@ func runSeq(h *hist, steps []step) {
 	}
 	completedSeen, nameHandles := 0, func() {}
 	deliveredSeen := map[int]int{}
-	for i := range steps {
-		i := i
+	launch := func(i int) {
 		st := steps[i]
 		method := capnp.Method{InterfaceID: 0xc11, MethodID: uint16(i)}
+		if st.prom >= np || st.parent >= np {
+			panic("promise index out of range: " + st.text)
+		}
+		p := ps[st.prom]
 		switch st.kind {
+		case 'J':
+			parent := ps[st.parent]
+			go func() { w.complete(i, Safely(func() string { p.Join(parent.Answer()); return "ret" })) }()
 		case 'F':
 			go func() {
 				res := buildResult(w, st.caps, st.capsL, capClients)
@@ -449,7 +481,7 @@ func runSeq(h *hist, steps []step) {
 			}()
 		case 'C':
 			go func() {
-				c := future(st.path).Client()
+				c := future(p, st.path).Client()
 				// the slot is written after quiescence, in operation order (several Client() calls
 				// can be released by the same resolution)
 				slotMu.Lock()
@@ -502,7 +534,7 @@ func runSeq(h *hist, steps []step) {
 		case 'Z':
 			// the owner of the result: waits for Done, then releases the result message(s)
 			go func() {
-				<-p.Answer().Done()
+				<-ps[0].Answer().Done()
 				w.mu.Lock()
 				ms := w.resultMsgs
 				w.resultMsgs = nil
@@ -523,6 +555,16 @@ func runSeq(h *hist, steps []step) {
 				w.complete(i, "ret")
 			}()
 		}
+	}
+	for i := 0; i < len(steps); {
+		lo, hi := i, i+1
+		if i == g0 && g1 > g0 {
+			hi = g1 // the launch group: all its operations are started before the bubble runs
+		}
+		for j := lo; j < hi; j++ {
+			launch(j)
+		}
+		i = hi
 		synctest.Wait()
 		// name the clients returned in this phase
 		nameHandles = func() {
@@ -595,10 +637,10 @@ func runSeq(h *hist, steps []step) {
 			items = append(items, it.s)
 		}
 		sep := ""
-		if i > 0 {
+		if lo > 0 {
 			sep = "|"
 		}
-		h.add(fmt.Sprintf("%s%d:%s", sep, i, strings.Join(items, ",")))
+		h.add(fmt.Sprintf("%s%d:%s", sep, lo, strings.Join(items, ",")))
 	}
 	// final: who is still blocked, is mu free
 	doneSet := map[int]bool{}
@@ -617,9 +659,11 @@ func runSeq(h *hist, steps []step) {
 	if len(stuck) > 0 {
 		s = strings.Join(stuck, ",")
 	}
-	muS := "held"
-	if p.VerifMuFree() {
-		muS = "free"
+	muS := "free"
+	for _, p := range ps {
+		if !p.VerifMuFree() {
+			muS = "held"
+		}
 	}
 	h.add(fmt.Sprintf(" stuck=%s mu=%s", s, muS))
 	// let the bubble end: cancel contexts, open all gates
@@ -774,7 +818,7 @@ func genBusy(r *Rand) string {
 		case 0:
 			steps = append(steps, fmt.Sprintf("S:%s:0", set[r.Intn(len(set))]))
 		case 1:
-			steps = append(steps, fmt.Sprintf("C:%s:%d", set[r.Intn(len(set))], r.Intn(3)))
+			steps = append(steps, fmt.Sprintf("C:%s:%d", set[r.Intn(len(set))], 10+len(steps)))
 		case 2:
 			steps = append(steps, "W")
 		default:
@@ -797,7 +841,230 @@ func genBusy(r *Rand) string {
 	return "seq " + strings.Join(steps, " ")
 }
 
+// genJoin: histories over 2..3 promises with Join (promise k joins a lower one, so no cycles).
+func genJoin(r *Rand, maxOps int) string {
+	np := 2 + r.Intn(2)
+	set := pathSets[[]int{0, 1, 3}[r.Intn(3)]]
+	pickPath := func() string {
+		if r.Intn(3) == 0 {
+			return set[r.Intn(len(set))]
+		}
+		return set[0]
+	}
+	caps := func() string {
+		var cs []string
+		for i, p := range set {
+			if r.Intn(4) != 0 {
+				cs = append(cs, fmt.Sprintf("%s=%d", p, i+1))
+			}
+		}
+		if len(cs) == 0 {
+			return "-"
+		}
+		return strings.Join(cs, ",")
+	}
+	var steps []string
+	var gated []int
+	cslots := []int{0, 1, 2}
+	pickSlot := func() int { return cslots[r.Intn(len(cslots))] }
+	add := func(s string) { steps = append(steps, s) }
+	pk := func() int { return r.Intn(np) }
+	switch r.Intn(4) {
+	case 0:
+		// Join started while the other promise is pending resolution (a call is still inside its
+		// PipelineCaller), the joining promise idle or busy
+		gated = append(gated, len(steps))
+		add(fmt.Sprintf("S@0:%s:1", pickPath()))
+		if r.Bool() {
+			add(fmt.Sprintf("C@1:%s:0", pickPath()))
+		}
+		if r.Intn(3) == 0 {
+			gated = append(gated, len(steps))
+			add(fmt.Sprintf("S@1:%s:1", pickPath()))
+		}
+		if r.Intn(4) == 0 {
+			add("R@0:-")
+		} else {
+			add("F@0:" + caps() + ":-")
+		}
+		add("J@1:0")
+		if np == 3 && r.Bool() {
+			add("J@2:1")
+		}
+	case 1:
+		// Join started while the other promise is pending join
+		gated = append(gated, len(steps))
+		add(fmt.Sprintf("S@1:%s:1", pickPath()))
+		if r.Bool() {
+			add(fmt.Sprintf("C@1:%s:1", pickPath()))
+		}
+		add("J@1:0")
+		if np == 3 {
+			if r.Bool() {
+				add(fmt.Sprintf("C@2:%s:2", pickPath()))
+			}
+			add("J@2:1")
+		}
+	default:
+	}
+	n := 2 + r.Intn(maxOps)
+	for i := 0; i < n; i++ {
+		g := 0
+		if r.Intn(3) == 0 {
+			g = 1
+		}
+		switch r.Pick(4, 2, 5, 4, 1, 1, 1, 1, 1, 2, 3) {
+		case 0:
+			add(fmt.Sprintf("S@%d:%s:%d", pk(), pickPath(), g))
+		case 1:
+			add(fmt.Sprintf("V@%d:%s:%d", pk(), pickPath(), g))
+		case 2:
+			// every Client() op has its own slot: two of them woken by the same resolution must not
+			// race for one slot in the harness
+			cslots = append(cslots, 10+len(steps))
+			add(fmt.Sprintf("C@%d:%s:%d", pk(), pickPath(), 10+len(steps)))
+			g = 0
+		case 3:
+			add(fmt.Sprintf("K:%d:%d", pickSlot(), g))
+		case 4:
+			add(fmt.Sprintf("Q:%d:%d", pickSlot(), g))
+		case 5:
+			add(fmt.Sprintf("F@%d:%s:-", pk(), caps()))
+			g = 0
+		case 6:
+			add(fmt.Sprintf("R@%d:-", pk()))
+			g = 0
+		case 7:
+			add(fmt.Sprintf("L@%d", pk()))
+			g = 0
+		case 8:
+			add(fmt.Sprintf("W@%d", pk()))
+			g = 0
+		case 9:
+			g = 0
+			if len(gated) > 0 {
+				k := r.Intn(len(gated))
+				add(fmt.Sprintf("U:%d", gated[k]))
+				gated = append(gated[:k], gated[k+1:]...)
+			} else {
+				add(fmt.Sprintf("U:%d", r.Intn(n)))
+			}
+		case 10:
+			g = 0
+			k := 1 + r.Intn(np-1)
+			add(fmt.Sprintf("J@%d:%d", k, r.Intn(k)))
+		}
+		if g == 1 {
+			gated = append(gated, len(steps)-1)
+		}
+	}
+	// close the history: let every call go, resolve every promise (again), release, wait, use
+	for _, g := range gated {
+		add(fmt.Sprintf("U:%d", g))
+	}
+	for k := 0; k < np; k++ {
+		if r.Bool() {
+			add(fmt.Sprintf("F@%d:%s:-", k, caps()))
+		} else {
+			add(fmt.Sprintf("R@%d:-", k))
+		}
+	}
+	for k := np - 1; k >= 0; k-- {
+		add(fmt.Sprintf("S@%d:%s:0", k, pickPath()))
+		add(fmt.Sprintf("C@%d:%s:%d", k, pickPath(), k))
+		add(fmt.Sprintf("W@%d", k))
+	}
+	add("K:0:0")
+	add("K:1:0")
+	for k := 0; k < np; k++ {
+		add(fmt.Sprintf("L@%d", k))
+	}
+	add("K:0:0")
+	add("K:2:0")
+	return fmt.Sprintf("join %d %s", np, strings.Join(steps, " "))
+}
+
+// genPar: a prefix of sequenced operations, a group of 2..3 operations launched together, a closing suffix.
+// No Future.Client inside the group (slot writes would race in the harness itself).
+func genPar(r *Rand) string {
+	np := 1 + r.Intn(2)
+	set := pathSets[[]int{0, 1, 3}[r.Intn(3)]]
+	path := func() string { return set[r.Intn(2)%len(set)] }
+	caps := fmt.Sprintf("%s=1", set[0])
+	pk := func() int { return r.Intn(np) }
+	var pre, grp, suf []string
+	var gated []int
+	idx := 0
+	add := func(dst *[]string, s string) { *dst = append(*dst, s); idx++ }
+	if r.Bool() {
+		add(&pre, fmt.Sprintf("C@%d:%s:0", pk(), path()))
+	}
+	for k := 0; k < r.Intn(3); k++ {
+		switch r.Intn(3) {
+		case 0:
+			gated = append(gated, idx)
+			add(&pre, fmt.Sprintf("S@%d:%s:1", pk(), path()))
+		case 1:
+			gated = append(gated, idx)
+			add(&pre, "K:0:1")
+		case 2:
+			add(&pre, fmt.Sprintf("W@%d", pk()))
+		}
+	}
+	ng := 2 + r.Intn(2)
+	for k := 0; k < ng; k++ {
+		switch r.Pick(3, 3, 2, 2, 2, 1, 1) {
+		case 0:
+			add(&grp, fmt.Sprintf("F@%d:%s:-", pk(), caps))
+		case 1:
+			if np > 1 {
+				add(&grp, "J@1:0")
+			} else {
+				add(&grp, "R@0:-")
+			}
+		case 2:
+			add(&grp, fmt.Sprintf("S@%d:%s:0", pk(), path()))
+		case 3:
+			add(&grp, "K:0:0")
+		case 4:
+			if len(gated) > 0 {
+				add(&grp, fmt.Sprintf("U:%d", gated[0]))
+				gated = gated[1:]
+			} else {
+				add(&grp, fmt.Sprintf("W@%d", pk()))
+			}
+		case 5:
+			add(&grp, fmt.Sprintf("L@%d", pk()))
+		case 6:
+			add(&grp, fmt.Sprintf("V@%d:%s:0", pk(), path()))
+		}
+	}
+	for _, g := range gated {
+		add(&suf, fmt.Sprintf("U:%d", g))
+	}
+	for k := 0; k < np; k++ {
+		add(&suf, fmt.Sprintf("R@%d:-", k))
+	}
+	for k := 0; k < np; k++ {
+		add(&suf, fmt.Sprintf("S@%d:%s:0", k, path()))
+		add(&suf, fmt.Sprintf("W@%d", k))
+	}
+	add(&suf, "K:0:0")
+	for k := 0; k < np; k++ {
+		add(&suf, fmt.Sprintf("L@%d", k))
+	}
+	all := append(append(append(append([]string{}, pre...), "{"), grp...), "}")
+	all = append(all, suf...)
+	return fmt.Sprintf("par %d %s", np, strings.Join(all, " "))
+}
+
 func genHistory(r *Rand, maxOps int) string {
+	if r.Intn(8) == 0 {
+		return genPar(r)
+	}
+	if r.Intn(3) == 0 {
+		return genJoin(r, maxOps)
+	}
 	if r.Intn(4) == 0 {
 		return genBusy(r)
 	}
@@ -828,6 +1095,8 @@ func genHistory(r *Rand, maxOps int) string {
 	n := 3 + r.Intn(maxOps)
 	var steps []string
 	var gated []int
+	cslots := []int{0, 1, 2}
+	usedLow := map[int]bool{}
 	resolvedAt := -1
 	for i := 0; i < n; i++ {
 		g := 0
@@ -844,11 +1113,22 @@ func genHistory(r *Rand, maxOps int) string {
 		case 1:
 			steps = append(steps, fmt.Sprintf("V:%s:%d", pickPath(), g))
 		case 2:
-			steps = append(steps, fmt.Sprintf("C:%s:%d", pickPath(), r.Intn(3)))
+			sl := r.Intn(3)
+			if resolvedAt >= 0 || r.Bool() {
+				sl = 10 + len(steps) // own slot (see genJoin)
+			}
+			if sl < 3 && usedLow[sl] && resolvedAt < 0 {
+				sl = 10 + len(steps)
+			}
+			if sl < 3 {
+				usedLow[sl] = true
+			}
+			cslots = append(cslots, sl)
+			steps = append(steps, fmt.Sprintf("C:%s:%d", pickPath(), sl))
 		case 3:
-			steps = append(steps, fmt.Sprintf("K:%d:%d", r.Intn(3), g))
+			steps = append(steps, fmt.Sprintf("K:%d:%d", cslots[r.Intn(len(cslots))], g))
 		case 4:
-			steps = append(steps, fmt.Sprintf("Q:%d:%d", r.Intn(3), g))
+			steps = append(steps, fmt.Sprintf("Q:%d:%d", cslots[r.Intn(len(cslots))], g))
 		case 5:
 			steps = append(steps, "F:"+genCaps()+":-")
 			if resolvedAt < 0 {
@@ -929,9 +1209,26 @@ func runC11(out *Out, r *Rand, tier string, replay []string) {
 			class = "blocked"
 		}
 		kind := "seq"
+		if strings.HasPrefix(l, "join ") {
+			kind = "join"
+		}
+		if strings.HasPrefix(l, "par ") || strings.HasPrefix(l, "join ") {
+			// the model allows a set of outcomes (a launch group, or several goroutines woken by one
+			// close): the driver is told what was observed
+			if strings.HasPrefix(l, "par ") {
+				kind = "par"
+			}
+			var keep []string
+			for _, tok := range strings.Fields(l) {
+				if !strings.HasPrefix(tok, "!") {
+					keep = append(keep, tok)
+				}
+			}
+			l = strings.Join(keep, " ") + " !" + strings.ReplaceAll(o, " ", "~")
+		}
 		// non-trivial: the history has a pipelined call or a proxy client and a resolution
-		nontrivial := (strings.Contains(l, " S:") || strings.Contains(l, " V:") || strings.Contains(l, " C:")) &&
-			(strings.Contains(l, " F:") || strings.Contains(l, " R:"))
+		nontrivial := (strings.Contains(l, " S") || strings.Contains(l, " V") || strings.Contains(l, " C")) &&
+			(strings.Contains(l, " F") || strings.Contains(l, " R"))
 		out.Case(kind, l, o, class, nontrivial)
 	}
 	out.Extra["x_hangs"] = hangs
